@@ -467,13 +467,16 @@ def real(sym):
         pse.require(extra is not None, "stdout-changed", "%s: %r vs %r" % (tag, got["stdout"][-200:], got["bare_stdout"][-200:]))
         lines = [l for l in extra.split("\n") if l.strip()]
         pse.require(len(lines) <= 1 and all("update" in l.lower() for l in lines), "unexpected-output", "%s: %r" % (tag, lines))
-        # timing is judged relative to a reference run with an immediately refused connection, and a slow run is repeated once
-        # (a loaded machine must not turn into an alarm): both attempts have to be too slow
+        # timing is judged relative to a reference run with an immediately refused connection, and a slow run is repeated twice
+        # (a loaded machine must not turn into an alarm): all three attempts have to be too slow
         def too_slow(g, b0):
             return g["t_cmd"] - b0["t_cmd"] > 1.5 or g["wall"] - b0["wall"] > 2.2
         if too_slow(got, base):
-            base2 = run_real({"tool": tool, "behaviour": "conn-error", "latency_s": 0, "dir": d, "verbose": verbose_cmd, "busy_s": busy, "outcome": outcome})
-            got2 = run_real({"tool": tool, "behaviour": behaviour, "latency_s": lat, "dir": d, "verbose": verbose_cmd, "busy_s": busy, "outcome": outcome, "home": home})
+            for attempt in range(2):
+                base2 = run_real({"tool": tool, "behaviour": "conn-error", "latency_s": 0, "dir": d, "verbose": verbose_cmd, "busy_s": busy, "outcome": outcome})
+                got2 = run_real({"tool": tool, "behaviour": behaviour, "latency_s": lat, "dir": d, "verbose": verbose_cmd, "busy_s": busy, "outcome": outcome, "home": home})
+                if not too_slow(got2, base2):
+                    break
             pse.require(not too_slow(got2, base2), "termination-delayed-more-than-1s",
                         "%s: command took %.2fs / %.2fs (reference %.2fs / %.2fs), process %.2fs / %.2fs (reference %.2fs / %.2fs)"
                         % (tag, got["t_cmd"], got2["t_cmd"], base["t_cmd"], base2["t_cmd"], got["wall"], got2["wall"], base["wall"], base2["wall"]))
